@@ -17,7 +17,7 @@ from vf.gen.instance import InstGen
 from vf.gen.mutate import get_at, set_at
 from vf.gen.refs import ref_positions, transform_local
 from vf.gen.schema import SchemaGen, walk_subschemas
-from vf.obs.fingerprint import fps
+from vf.obs.fingerprint import fp, fps
 
 ID = "C10"
 LEVEL = "exploration"
@@ -84,15 +84,25 @@ def floors(tier):
 def errors_of(d, schema, inst, resolver=None):
     cls = impl.CLS[d]
     try:
-        if resolver is not None:
-            return "ok", fps(cls(schema, resolver=resolver).iter_errors(inst), message=False)
-        return "ok", fps(cls(schema).iter_errors(inst), message=False)
+        v = cls(schema, resolver=resolver) if resolver is not None else cls(schema)
+        errs = list(v.iter_errors(inst))
+        # ... and the one error jsonschema.validate() would raise (best_match): a reported error as well
+        best = X.best_match(iter(errs))
+        return "ok", [fps(errs, message=False), None if best is None else fp(best, message=False)]
     except X.RefResolutionError as e:
         return "RefResolutionError", None
     except X.UnknownType:
         return "UnknownType", None
     except Exception as e:
         return "exc:" + type(e).__name__, None
+
+
+def with_key(rng, node, name, val):
+    """A copy of the object `node` with the member name: val at a random position; the members it already has keep
+    their relative order (the order in which an implementation reports - and ranks - errors may follow it)."""
+    items = list(node.items())
+    k = rng.randrange(0, len(items) + 1)
+    return dict(items[:k] + [(name, val)] + items[k:])
 
 
 def insert(rng, d, S, used):
@@ -126,10 +136,7 @@ def insert(rng, d, S, used):
         # names the parent keyword consults are not foreign at this position
         if d == 3 and name == "required":
             continue
-        new = dict(node)
-        new[name] = val
-        if rng.random() < 0.5:
-            new = dict(reversed(list(new.items())))
+        new = with_key(rng, node, name, val)
         cur = set_at(cur, list(path), new)
         used.add((d, name))
         log.append({"path": list(path), "name": name, "would_fail": wf, "next_to_ref": is_ref, "depth": _depth(d, path)})
@@ -180,13 +187,18 @@ def compare(ctx, d, S, S2, log, inst, resolver_factory=None, mech=None):
     case = {"draft": d, "schema": S, "schema_with_insertions": S2, "insertions": log, "instance": inst}
     wf = any(l["would_fail"] for l in log)
     ctx.count("cases")
-    ctx.case([d, S, S2, inst], nontrivial=bool(f0) or wf)
-    if f0:
+    ctx.case([d, S, S2, inst], nontrivial=bool(f0 and f0[0]) or wf)
+    if f0 and f0[0]:
         ctx.count("cases_with_errors")
     if st0 != st1:
         ctx.violation("outcome-changed", case, "without insertions: %s, with: %s" % (st0, st1), mech=mech)
-    elif f0 != f1:
-        ctx.violation("errors-changed", case, "errors differ: %r vs %r" % (f0[:2], f1[:2]), mech=mech)
+    elif f0[0] != f1[0]:
+        ctx.violation("errors-changed", case, "errors differ: %r vs %r" % (f0[0][:2], f1[0][:2]), mech=mech)
+    elif f0[1] != f1[1]:
+        ctx.violation("best-match-changed", case, "same errors, but best_match (what validate() raises) is %r without and %r with the insertions" % (
+            f0[1][:4], f1[1][:4]), mech=mech)
+    if f0 and f0[0] and any(e[4] for e in f0[0]):
+        ctx.count("cases_with_context_errors")
 
 
 def base_uri_cases(ctx, d, rng):
@@ -301,10 +313,7 @@ def foreign_sibling_matrix(ctx, d, rr, used, idx0):
                 ig = InstGen(rr, base)
                 insts = ig.batch(4)
                 for val in rr.sample(SIBLING_VALUES, 5):
-                    S2 = dict(base)
-                    S2[name] = val
-                    if rr.random() < 0.5:
-                        S2 = dict(reversed(list(S2.items())))
+                    S2 = with_key(rr, base, name, val)
                     used.add((d, name))
                     log = [{"path": [], "name": name, "would_fail": False, "next_to_ref": False, "depth": 0, "sibling_of": kw}]
                     for inst in insts:
